@@ -94,6 +94,12 @@ def memo_projection(ctx, module_names, clause, only=None):
                 k = expand(fn, key, node)
                 proj = [a for a in ast.walk(k) if isinstance(a, ast.Attribute) and a.attr in LOSSY_DTYPE_ATTRS
                         and isinstance(a.value, ast.Attribute) and a.value.attr == "dtype"]
+                ids = [c for c in ast.walk(k) if isinstance(c, ast.Call) and isinstance(c.func, ast.Name) and c.func.id == "id" and c.args]
+                if ids and not proj:
+                    ctx.ob("MEMO-proj", fn, f"{norm(node)[:90]}", node, False,
+                           f"the table is keyed by {norm(ids[0])}: the identity of a mutable object says nothing about its contents (an in-place "
+                           f"edit keeps the id, and a freed object's id is reused), so later calls are answered from stale data", clause=clause)
+                    continue
                 if not proj:
                     continue
                 base = norm(proj[0].value.value)          # the object whose dtype is projected
@@ -102,8 +108,12 @@ def memo_projection(ctx, module_names, clause, only=None):
                 txt = norm(v)
                 # does the value read the object or its dtype other than through the same projection?
                 rest = txt.replace(ptxt, "")
+                # the is_*() predicates of Vector are functions of the scalar type alone: a value chosen through them is
+                # determined by any of these projections
                 import re
-                reads_more = re.search(r"(?<![\w.])" + re.escape(base) + r"(?![\w])", rest) is not None
+                rest = re.sub(re.escape(base) + r"\._?is_[a-z_]+\(\)", "", rest)
+                pat = r"(?<![\w.])" + re.escape(base) + r"(?![\w])"
+                reads_more = re.search(pat, rest) is not None
                 ctx.ob("MEMO-proj", fn, f"{norm(node)[:90]}", node, not reads_more,
                        f"the stored value depends on {ptxt} only" if not reads_more else
                        f"the table is keyed by {ptxt}, which is the same for every unit of datetime64 / timedelta64 and every "
